@@ -218,6 +218,16 @@ PROPS.update({
         "explanation": "partial: Lean proves, for the store-level programs of the 16 single-rounding Context operations, the footprints (reads within {x,y,d}, writes within {d}) and the generic interleaving theorem: for any family of calls with pairwise distinct destinations that are distinct from every other call's operands, under EVERY schedule of their primitive field accesses each call returns its solo result (= the value-level model's) - hence no conflicting accesses at the model's granularity. Whether the compiled code confines its writes (BigInt.inner temporaries pointing into shared inline arrays through unsafe, math/big never writing through operands, word tearing) lives in the runtime: the footprint is validated on the real code by the alias stream (operands, context and package state unchanged) and a -race build runs 16 goroutines x shared contexts/operands (inline and heap coefficients), comparing every result with the sequential baseline",
     },
 })
+PROPS["C12"] = {
+    "level": "other",
+    "lean_modules": ["ApdVerif.Props.C12", "ApdVerif.Props.C12Interval"],
+    "theorem_prefixes": ["C12_", "C12I_"],
+    "streams": [{"stream": "translog", "n": {"quick": 25000, "thorough": 500000}}],
+    "projections": ["value", "repr", "flags", "err"],
+    "oracle_tags": ["C12"],
+    "explanation": "partial: proved in Lean for all inputs - the exact cases (exp(0), ln(1), log10(1), x**0, x**1, integer powers whose exact value fits) on the modelled part of the code (special-value prologues and the float-free integer-power path of Pow, which is correspondence-checked), and the soundness of the outward-rounded interval arithmetic behind the oracles (see Props/C12Interval.lean for how far). NOT proved: the one-ulp accuracy of the Taylor/Halley/atanh series, which are steered by float64 estimates. Every generated case (operands with more digits than Precision, ln near 1, exp near the over/underflow thresholds, integer, half-integer and fractional powers, Precision 1..34) is judged by rational enclosures of exp and ln: a failure is reported only when the result is certainly more than one ulp from every point of the enclosure; claimed overflow/underflow is checked against the enclosure",
+    "trusted_extra": [COMPOSITE_NOTE, "strLn10/strInvLn10 digit strings: their leading digits are compared with the interval enclosure of ln 10 through every Ln/Log10 case that is rescaled by ln 10"],
+}
 
 _known = None
 
